@@ -112,6 +112,9 @@ func (c *Collection) subdocWrite(key string, subdocKey string, cas CAS, value an
 			if _, ok := err.(sgbucket.CasMismatchErr); ok && cas == 0 {
 				continue // Doc has been updated but we're not matching CAS, so retry...
 			}
+			if errors.As(err, &missingError) && cas == 0 {
+				continue // ...and likewise if what was read has been purged since
+			}
 			return 0, err
 		}
 		return casOut, nil
